@@ -203,6 +203,58 @@ theorem recyclebin_can_find_and_revive {s : State} (hi : Inv s) (ct x : Nat) (xe
   rw [hsub]
   exact hok
 
+/-- A recycled certificate that was deleted on its own (no cascade mark, still referring to `p`)
+can be revived whenever `p` is live: the dependent case of "can be found and revived". -/
+theorem recycled_dependent_can_be_revived {s : State} (hi : Inv s) (ct x p : Nat) (xe pe : Entry)
+    (hx : find s.es x = some xe) (hr : xe.st = .recycled) (hc : xe.casc = none)
+    (hrf : xe.refers = some p) (hp : find s.es p = some pe) (hpl : pe.st = .live)
+    (hpr : pe.refers = none) (hnodep : ∀ e ∈ s.es, e.casc ≠ some x)
+    (htime : changelogMaxAge * NS ≤ txnTs s ct) :
+    x ∈ searchRecycleBin s.es ∧
+    ∃ es', apply s ct (.revive x) = .ok es' none ∧
+      ∃ e', find es' x = some e' ∧ e'.st = .live ∧ e'.refers = some p := by
+  have hmem := find_some_mem hx
+  refine ⟨(deleted_invisible s.es x).2.mpr ⟨xe, hmem.1, hmem.2, hr⟩, ?_⟩
+  have hsub : subSecs (txnTs s ct) trimWindow = some ⟨txnTs s ct - trimWindow * NS, 0⟩ := by
+    unfold subSecs; simp [trimWindow, htime, subSecsUuid]
+  have hinRx : inR x xe = true := by simp [inR, hr, hmem.2]
+  have hrrx : revRefers xe = some p := by simp [revRefers, hc, hrf]
+  have hpnotR : inR x pe = false := by simp [inR, hpl]
+  have hfp1 : find (s.es.map (reviveE x (txnTs s ct))) p = some pe := by
+    rw [find_map _ (reviveE_id x _), hp]
+    simp [reviveE_not_inR hpnotR]
+  -- the only revived entry is the target
+  have honly : ∀ e ∈ s.es, inR x e = true → e = xe := by
+    intro e he hR
+    simp only [inR, Bool.and_eq_true, beq_iff_eq, Bool.or_eq_true] at hR
+    rcases hR.2 with h1 | h1
+    · exact live_of_find_nodup hi.nodup hx he h1
+    · exact absurd h1 (hnodep e he)
+  have h1 : s.es.any (fun e => inR x e && e.kind == .cert && (revRefers e).isNone) = false := by
+    rw [List.any_eq_false]
+    intro e he
+    by_cases hR : inR x e = true
+    · rw [honly e he hR]; simp [hrrx]
+    · simp [hR]
+  have h2 : s.es.any (fun e => inR x e && reviveRefBad (s.es.map (reviveE x (txnTs s ct))) e) = false := by
+    rw [List.any_eq_false]
+    intro e he
+    by_cases hR : inR x e = true
+    · rw [honly e he hR]; simp [reviveRefBad, hc]
+    · simp [hR]
+  have h3 : s.es.any (fun e => inR x e && reviveLoopBad (s.es.map (reviveE x (txnTs s ct))) e) = false := by
+    rw [List.any_eq_false]
+    intro e he
+    by_cases hR : inR x e = true
+    · rw [honly e he hR]; simp [reviveLoopBad, hrrx, hasRefers, hfp1, hpr]
+    · simp [hR]
+  have hok := opRevive_eq (ts := txnTs s ct) hx hr h1 h2 h3
+  obtain ⟨re', hf', hl', hrf', _⟩ := revive_find hok hx hinRx
+  refine ⟨_, ?_, re', hf', hl', by rw [hrf', hrrx]⟩
+  unfold apply
+  rw [hsub]
+  exact hok
+
 /-- A successful revive brings back the entry, every recycled entry that was cascade-deleted
 with it (referring to it again, cascade mark cleared) and, for each of them, every direct
 membership recorded at deletion whose group is live: the group lists it again and its
@@ -449,6 +501,16 @@ example : stOf (demoAt 8) 1 = some .tomb ∧ stOf (demoAt 8) 9 = some .tomb := b
 example : demoAt 9 = demoAt 8 := by decide
 example : stOf (demoAt 10) 1 = some .tomb := by decide
 example : stOf (demoAt 11) 1 = none ∧ stOf (demoAt 11) 9 = none := by decide
+
+/-- a certificate deleted on its own and revived on its own while its person is live
+(`recycled_dependent_can_be_revived`) -/
+def demo2 : List (Nat × Op) :=
+  [(T0 + S, .createPerson 1), (T0 + 2 * S, .createCert 9 1), (T0 + 3 * S, .delete [9]),
+   (T0 + 4 * S, .revive 9)]
+
+example : stOf (run ⟨[], T0, 1⟩ (demo2.take 3)) 9 = some .recycled ∧
+    stOf (run ⟨[], T0, 1⟩ demo2) 9 = some .live ∧
+    (find (run ⟨[], T0, 1⟩ demo2).es 9).map (·.refers) = some (some 1) := by decide
 
 /-- member ↔ directmemberof for one (group, entry) pair of live entries -/
 def coherentAt (es : List Entry) (g y : Nat) : Bool :=
